@@ -229,7 +229,7 @@ class URL:
             path = (
                 (environ.get("SCRIPT_NAME", "") + environ.get("PATH_INFO", ""))
                 .encode("latin1")
-                .decode("utf8")
+                .decode("utf8", "replace")
             )
             query_string = environ.get("QUERY_STRING", "").encode("latin-1")
             host_header = environ.get("HTTP_HOST", None)
@@ -262,7 +262,9 @@ class URL:
                 url = f"{scheme}://{host}:{port}{path}"
 
         if query_string:
-            query = _percent_encode(query_string.decode(), _URL_QUERY_UNSAFE)
+            query = _percent_encode(
+                query_string.decode("utf8", "replace"), _URL_QUERY_UNSAFE
+            )
             url = f"{url}?{query}"
 
         return url
